@@ -71,6 +71,11 @@ def run(chk: Check):
     KEY, AAD = ("p", ctx.qual, 1), ("p", ctx.qual, 2)
     cfg = ctx.cfg
     outs = func_outcomes(chk, ctx)
+    # the encrypted region is a stream kept on the object: every decrypt() has to rewind it before reading, or a second call
+    # (a retry with the right AAD, say) decrypts nothing
+    from ..rulelib import _typestate
+    data_t = R.self_attr(ek, "data")
+    _typestate(chk, ctx, "decrypt", handle_pred=lambda h: h == data_t or S.contains(h, lambda x: x == data_t))
     cn = R.self_attr(ek, "cipher_name")
     kh = R.self_attr(ek, "key_hash")
     want_hash = S.call(".digest", [S.call("ext:hashlib.sha256", [S.op("add", S.call(".encode", [cn]), KEY)])])
